@@ -138,8 +138,19 @@ fn run_mutants(cfg: &Cfg, index: u64, stats: &mut Stats) {
         return;
     }
     let tries = cfg.tier.pick(8, 12).min(sites);
+    // half of the tries go to the kinds that a coverage / executability hole would let through to the interpreter
+    let kinds = e1::print::program_site_kinds(&program, &styles[0], cfg.seed ^ index);
+    let risky: Vec<usize> = kinds.iter().enumerate().filter(|(_, k)| matches!(k.as_str(), "missing-match-arm" | "missing-comatch-arm" | "refutable-binder" | "term-hole")).map(|(i, _)| i).collect();
     for t in 0..tries {
-        let target = (rng.below(sites) + t * sites / tries) % sites;
+        let target = if t % 2 == 1 && !risky.is_empty() {
+            // a kind first (term holes are far more numerous than droppable arms), then one of its sites
+            let present: Vec<&str> = ["missing-match-arm", "missing-comatch-arm", "refutable-binder", "term-hole"].into_iter().filter(|k| risky.iter().any(|i| kinds[*i] == *k)).collect();
+            let kind = *rng.pick(&present);
+            let of_kind: Vec<usize> = risky.iter().copied().filter(|i| kinds[*i] == kind).collect();
+            of_kind[rng.below(of_kind.len())]
+        } else {
+            (rng.below(sites) + t * sites / tries) % sites
+        };
         let style = &styles[rng.below(styles.len())];
         let (text, _, applied) = e1::print::program_text_mut(&program, style, cfg.seed ^ index ^ ((t as u64) << 24), Some(target));
         let Some(kind) = applied else { continue };
